@@ -412,7 +412,6 @@ func ruleSeekRel(p *Prog, r *Report, fs []*ssa.Function) {
 	}
 }
 
-
 // ruleWinSize: the size of every look-ahead buffer the library creates is a constant, or at least computed
 // without asking anything of a reader.
 func ruleWinSize(p *Prog, r *Report) {
